@@ -21,12 +21,39 @@ let p_name = function POk -> "ok" | PInvalid -> "invalid" | PRange -> "range"
 let dom_charconv b = b >= 2 && b <= 36
 let dom_strto b = b = 0 || (b >= 2 && b <= 36)
 
-let run_case op t =
+let err_s = function TiNone -> "ok" | TiInvalid -> "invalid" | TiOverflow -> "overflow"
+let ti_show ((e, err), v) = join [ err_s err; string_of_int (int_of_nat e); str_of_z v ]
+let rec skipn_l n l = if n <= 0 then l else match l with [] -> [] | _ :: r -> skipn_l (n - 1) r
+
+(* "<op>_d": the C++ call leaves out every defaulted argument; the model gets the documented defaults *)
+let strip_d op =
+  let n = String.length op in
+  if n > 2 && String.sub op (n - 2) 2 = "_d" then (String.sub op 0 (n - 2), true) else (op, false)
+
+let run_case op0 t =
+  let (op, dflt) = strip_d op0 in
   match op with
+  | ("stoi" | "stol" | "stoll" | "stoul" | "stoull") when dflt ->
+      (* name(str) and name(str, &pos): base 10 *)
+      let ty = (match op with "stoi" -> i32 | "stol" | "stoll" -> i64 | _ -> u64) in
+      let s = next_codes t in
+      let show (v, n) = join [ "v"; str_of_z v; str_of_z v; string_of_int (int_of_nat n) ] in
+      let m = res_s show (strto_m ty s (z_of_int 10)) in
+      (* where std throws, the documented etl behaviour is the strtol result (C10_sto_correct) *)
+      (m, show (strto_spec ty (z_of_int 10) s))
+  | "idiv" ->
+      let ty = ity_of (next_str t) in
+      let x = next_z t in let y = next_z t in
+      let m = res_s (fun (q, r) -> join [ "ok"; str_of_z q; str_of_z r ]) (idiv_m ty x y) in
+      let p =
+        if y = Z0 then "na"
+        else let q = Z.quot x y in
+          if in_ty ty q then join [ "ok"; str_of_z q; str_of_z (Z.rem x y) ] else "na" in
+      (m, p)
   | "to_chars" | "to_chars_buf" ->
       let full = op = "to_chars_buf" in
       let ty = ity_of (next_str t) in
-      let base = next_int t in let len = next_int t in let v = next_z t in
+      let base = if dflt then 10 else next_int t in let len = next_int t in let v = next_z t in
       let m = res_s (fun ((err, e), b) ->
           let e = int_of_nat e in
           if full then join [ (if err then "too_large" else "ok"); string_of_int e; bytes_s b ]
@@ -34,10 +61,13 @@ let run_case op t =
           else join [ "ok"; string_of_int e; bytes_s (firstn_l e b) ])
           (to_chars_m ty v (z_of_int base) (prefill len)) in
       let p =
-        if full || not (dom_charconv base) then "na"
+        if not (dom_charconv base) then "na"
         else match to_chars_spec (z_of_int base) v (nat_of_int len) with
-          | Some s -> join [ "ok"; string_of_int (List.length s); bytes_s s ]
-          | None -> join [ "too_large"; string_of_int len ] in
+          | Some s ->
+              (* whole buffer: the text, then the previous contents untouched (C10_to_chars_correct) *)
+              if full then join [ "ok"; string_of_int (List.length s); bytes_s (s @ skipn_l (List.length s) (prefill len)) ]
+              else join [ "ok"; string_of_int (List.length s); bytes_s s ]
+          | None -> if full then "na" (* contents unspecified *) else join [ "too_large"; string_of_int len ] in
       (m, p)
   | "from_integer" | "from_integer_buf" ->
       let full = op = "from_integer_buf" in
@@ -55,16 +85,21 @@ let run_case op t =
           (from_integer_m ty term v (z_of_int base) (prefill len)) in
       (* spec: the text (and the terminator) when len has room for it, an error otherwise *)
       let p =
-        if full || not (dom_charconv base) then "na"
+        if not (dom_charconv base) then "na"
         else
           let s = to_text (z_of_int base) v in
-          if List.length s + (if term then 1 else 0) <= len
-          then join ([ "ok"; bytes_s s ] @ (if term then [ "0" ] else []))
-          else "overflow" in
+          let tl = if term then 1 else 0 in
+          if List.length s + tl <= len
+          then
+            (if full then   (* fi_post: text, terminator, previous contents untouched, end behind the text *)
+               join [ "ok"; string_of_int (List.length s);
+                      bytes_s (s @ (if term then [ Z0 ] else []) @ skipn_l (List.length s + tl) (prefill len)) ]
+             else join ([ "ok"; bytes_s s ] @ (if term then [ "0" ] else [])))
+          else if full then "na" else "overflow" in
       (m, p)
   | "from_chars" | "from_chars_ovf" ->
       let ty = ity_of (next_str t) in
-      let base = next_int t in let s = next_codes t in
+      let base = if dflt then 10 else next_int t in let s = next_codes t in
       let m = res_s (fun ((c, e), v) -> join [ fc_name c; string_of_int (int_of_nat e); str_of_z v ])
           (from_chars_m ty s (z_of_int base) sentinel) in
       let p =
@@ -99,19 +134,23 @@ let run_case op t =
   | "to_integer" | "to_integer_nc" ->
       let checked = op = "to_integer" in
       let ty = ity_of (next_str t) in
-      let ws = next_bool t in let plus = next_bool t in
-      let base = next_z t in let s = next_codes t in
-      let m = res_s (fun ((e, err), v) ->
-          join [ (match err with TiNone -> "ok" | TiInvalid -> "invalid" | TiOverflow -> "overflow");
-                 string_of_int (int_of_nat e); str_of_z v ])
-          ((if checked then to_integer_m else to_integer_nc_m) ty ws plus s (cast ty base)) in
-      (m, "na")
+      let ws = if dflt then true else next_bool t in let plus = if dflt then true else next_bool t in
+      let base = if dflt then z_of_int 10 else next_z t in let s = next_codes t in
+      let m = res_s ti_show ((if checked then to_integer_m else to_integer_nc_m) ty ws plus s (cast ty base)) in
+      (* spec legs = the right-hand sides of C10_to_integer_correct / C10_to_integer_unchecked *)
+      let bi = (try Big.to_int (big_of_z base) with _ -> 99) in
+      let p =
+        if not (dom_charconv bi) then "na"
+        else if checked then ti_show (gparse ty ws plus s base)
+        else if not ty.sgn then ti_show (nc_unsigned_spec ty ws plus s base)
+        else (match gparse ty ws plus s base with ((_, TiNone), _) as r -> ti_show r | _ -> "na") in
+      (m, p)
   | "to_string" ->
       let ty = ity_of (next_str t) in
       let cap = next_int t in let v = next_z t in
       let m = res_s (fun s -> join [ "ok"; bytes_s s; "0" ]) (to_string_m ty (nat_of_int cap) v) in
       let s = to_text (z_of_int 10) v in
-      let p = if List.length s <= cap then join [ "ok"; bytes_s s; "0" ] else "na" in
+      let p = if List.length s <= cap then join [ "ok"; bytes_s s; "0" ] else "contract" (* C10_to_string_correct *) in
       (m, p)
   | "strtol" | "strtoll" | "strtoul" | "strtoull" | "stoi" | "stol" | "stoll" | "stoul" | "stoull"
   | "strtol_n" | "strtoll_n" | "strtoul_n" | "strtoull_n"
@@ -130,7 +169,8 @@ let run_case op t =
       let p =
         if not (dom_strto base) then "na"
         else if is_sto then
-          (match sto_spec ty (z_of_int base) s with Some r -> show r | None -> "na")
+          (* where std throws (sto_spec = None) the documented etl behaviour is the strtol result (C10_sto_correct) *)
+          (match sto_spec ty (z_of_int base) s with Some r -> show r | None -> show (strto_spec ty (z_of_int base) s))
         else show (strto_spec ty (z_of_int base) s) in
       (m, p)
   | "strto_integer" ->
